@@ -91,8 +91,17 @@ func (pl *planter) leaf(depth int, allowVar bool) (interface{}, interface{}) {
 		pl.bs0[v] = b
 		if sat {
 			pl.sigma[base] = a
+			if !pl.strict && g.P(1, 6) {
+				// counterpart given, but different: no match although the relation holds
+				pl.bs0[base] = a + 1
+				pl.valid = false
+			}
 		} else {
 			pl.valid = false
+			if g.P(1, 2) {
+				// counterpart already bound to the message value, relation false
+				pl.bs0[base] = a
+			}
 		}
 		return v, a
 	default:
@@ -143,15 +152,23 @@ func (pl *planter) genMap(depth int) (interface{}, interface{}) {
 		} else if k != "?" {
 			pl.sigma[k] = fk
 		}
-		pv, fv := pl.gen(depth - 1)
+		var pv, fv interface{}
+		if depth > 0 && g.P(1, 2) {
+			pv, fv = pl.genMap(depth - 1)
+		} else {
+			pv, fv = pl.gen(depth - 1)
+		}
 		p[k] = pv
 		f[fk] = fv
 		for i := g.Intn(3); i > 0; i-- {
 			ek := g.Key()
 			if _, have := f[ek]; !have {
-				if g.P(1, 2) {
+				switch g.Intn(3) {
+				case 0:
 					f[ek] = DeepCopy(fv) // distractor that matches too
-				} else {
+				case 1:
+					f[ek] = g.perturb(DeepCopy(fv), depth-1) // distractor that matches in part
+				default:
 					f[ek] = g.Value(depth - 1)
 				}
 			}
@@ -257,6 +274,13 @@ func (pl *planter) genArr(depth int) (interface{}, interface{}) {
 		}
 	}
 	for i := 0; i < extras; i++ {
+		if len(f) > 0 && g.P(1, 3) {
+			// a distractor that partially matches one of the structured elements
+			if e := f[g.Intn(len(f))]; !IsScalar(e) {
+				addF(g.perturb(DeepCopy(e), depth-1))
+				continue
+			}
+		}
 		addF(g.Value(depth - 1))
 	}
 	g.R.Shuffle(len(p), func(i, j int) { p[i], p[j] = p[j], p[i] })
@@ -306,6 +330,51 @@ func (g *G) perturb(x interface{}, depth int) interface{} {
 	default:
 		return g.Scalar()
 	}
+}
+
+// MatchBacktrack generates a case aimed at the isolation of backtracking branches: a sub-pattern
+// with a discriminating constant, an optional variable and a plain variable is tried against
+// several candidates (the values under a property variable, or the elements of an array); some
+// candidates bind the variables and then fail on the constant.  A binding made by a failed
+// candidate must not show up in any result.
+func (g *G) MatchBacktrack() MatchCase {
+	disc := g.PickS("on", "off")
+	sub := map[string]interface{}{"state": disc}
+	if g.P(3, 4) {
+		sub["level"] = g.PickS(optVars...)
+	}
+	if g.P(1, 2) {
+		sub["name"] = g.PickS(plainVars...)
+	}
+	cands := []interface{}{}
+	n := 2 + g.Intn(3)
+	for i := 0; i < n; i++ {
+		c := map[string]interface{}{"state": g.PickS("on", "off", "dim")}
+		if g.P(1, 2) {
+			c["level"] = numbers[g.Intn(len(numbers))]
+		}
+		if g.P(2, 3) {
+			c["name"] = g.PickS(constStrings...)
+		}
+		cands = append(cands, c)
+	}
+	var p, f interface{}
+	if g.P(1, 2) {
+		k := "?"
+		if g.P(1, 2) {
+			k = g.PickS(plainVars...)
+		}
+		p = map[string]interface{}{k: sub}
+		fm := map[string]interface{}{}
+		for i, c := range cands {
+			fm[keys[i%len(keys)]] = c
+		}
+		f = fm
+	} else {
+		p = []interface{}{sub}
+		f = cands
+	}
+	return MatchCase{P: p, F: f, Bs: map[string]interface{}{}, Profile: "backtrack"}
 }
 
 // MatchPlanted generates a case from a planted witness.
